@@ -301,6 +301,14 @@ def run(tier):
     chk.adopt('C01.R8', 'the compared streams are the command\'s bytes '
               'decoded once, and each command runs its own private copy '
               '(shared with C09.R7, C09.R8)', sub9)
+    from .. import genreuse
+    chk.guard(genreuse.rule, chk, prog, 'C01.R9',
+              'what the writers render is consumed once: no one-shot '
+              'iterator over the rendered expressions is traversed twice '
+              'on one path', {'nodeio': None, 'checker': None},
+              'the output file (or the candidate handed to the command) is '
+              'written from an exhausted iterator, i.e. empty, although the '
+              'accepted candidate was complete')
     extra = None
     if tier == 'thorough':
         from .. import selftest
